@@ -91,6 +91,8 @@ func runC05(c *Ctx) {
 		c.J.Log("CASE %s lines=%d", Case("sess", idx), nLines)
 		// build the session and the specification states with the relational model
 		m := model.NewTModel("me")
+		// the channel's name has capitals in every other session (names are compared as the server spells them)
+		chn := []string{"#c", "#Chan-DE"}[idx%2]
 		apply := func(op string, a ...string) { m.Apply(model.TOp{Kind: op, A: a}, false) }
 		var lines []string
 		var verbs []string
@@ -99,13 +101,14 @@ func runC05(c *Ctx) {
 		fresh := 0
 		topicSet := false
 		push := func(verb, l string) {
+			l = strings.Replace(l, " #c", " "+chn, 1)
 			lines = append(lines, l)
 			verbs = append(verbs, verb)
-			states = append(states, chanCanon(m.ChanSnap("#c")))
+			states = append(states, chanCanon(m.ChanSnap(chn)))
 		}
 		// line 0: the client joins
-		apply("NewChannel", "#c")
-		apply("Associate", "#c", "me")
+		apply("NewChannel", chn)
+		apply("Associate", chn, "me")
 		push("JOIN", ":me!ident@host JOIN #c")
 		for len(lines) < nLines {
 			n := len(lines)
@@ -115,20 +118,20 @@ func runC05(c *Ctx) {
 				nick := fmt.Sprintf("n%d", fresh)
 				apply("NewNick", nick)
 				apply("NickInfo", nick, "i", "h", "")
-				apply("Associate", "#c", nick)
+				apply("Associate", chn, nick)
 				members = append(members, nick)
 				push("JOIN", fmt.Sprintf(":%s!i@h JOIN #c", nick))
 			case k < 4:
 				i := r.Intn(len(members))
 				nick := members[i]
 				members = append(members[:i], members[i+1:]...)
-				apply("Dissociate", "#c", nick)
+				apply("Dissociate", chn, nick)
 				push("PART", fmt.Sprintf(":%s!i@h PART #c :bye %d", nick, n))
 			case k < 5:
 				i := r.Intn(len(members))
 				nick := members[i]
 				members = append(members[:i], members[i+1:]...)
-				apply("Dissociate", "#c", nick)
+				apply("Dissociate", chn, nick)
 				push("KICK", fmt.Sprintf(":me!ident@host KICK #c %s :out %d", nick, n))
 			case k < 6:
 				i := r.Intn(len(members))
@@ -154,32 +157,32 @@ func runC05(c *Ctx) {
 				t := fmt.Sprintf("t%d", n)
 				if n%3 == 0 && topicSet {
 					// the topic is removed: an empty trailing parameter (the sender's name keeps the raw line unique)
-					apply("Topic", "#c", "")
+					apply("Topic", chn, "")
 					push("TOPIC", fmt.Sprintf(":clr%d!i@h TOPIC #c :", n))
 					topicSet = false
 				} else {
-					apply("Topic", "#c", t)
+					apply("Topic", chn, t)
 					push("TOPIC", fmt.Sprintf(":srv TOPIC #c :%s", t))
 					topicSet = true
 				}
 			case k < 10:
-				apply("ChannelModes", "#c", "+l", strconv.Itoa(n+1000))
+				apply("ChannelModes", chn, "+l", strconv.Itoa(n+1000))
 				push("MODE", fmt.Sprintf(":srv MODE #c +l %d", n+1000))
 			case k < 11:
-				apply("ChannelModes", "#c", "+k", fmt.Sprintf("key%d", n))
+				apply("ChannelModes", chn, "+k", fmt.Sprintf("key%d", n))
 				push("MODE", fmt.Sprintf(":srv MODE #c +k key%d", n))
 			default:
 				// flip a privilege of a member: unique because it changes exactly that member's flag
 				nick := members[r.Intn(len(members))]
 				letter := "ov"[r.Intn(2)]
-				cur := m.ChanSnap("#c").Nicks[nick]
+				cur := m.ChanSnap(chn).Nicks[nick]
 				on := !(letter == 'o' && cur.Op || letter == 'v' && cur.Voice)
 				ms := "-" + string(letter)
 				if on {
 					ms = "+" + string(letter)
 				}
 				// the trailing extra argument is ignored by every mode parser; it makes the raw line unique
-				apply("ChannelModes", "#c", ms, nick, fmt.Sprintf("x%d", n))
+				apply("ChannelModes", chn, ms, nick, fmt.Sprintf("x%d", n))
 				push("MODE", fmt.Sprintf(":srv MODE #c %s %s x%d", ms, nick, n))
 			}
 		}
@@ -238,7 +241,7 @@ func runC05(c *Ctx) {
 					}
 				}
 				late := atomic.LoadInt32(&causeFired) == 1
-				ch := st.GetChannel("#c") // the one tracker call
+				ch := st.GetChannel(chn) // the one tracker call
 				ra := atomic.LoadInt64(&recvCount)
 				snap2 := ""
 				if !bg {
@@ -254,7 +257,7 @@ func runC05(c *Ctx) {
 							runtimeGosched()
 						}
 					}
-					snap2 = chanCanon(st.GetChannel("#c"))
+					snap2 = chanCanon(st.GetChannel(chn))
 				}
 				mu.Lock()
 				samples = append(samples, sample{n, bg, chanCanon(ch), ra, next, snap2, late})
@@ -266,7 +269,7 @@ func runC05(c *Ctx) {
 		s.Conn.HandleFunc(client.CONNECTED, func(_ *client.Conn, l *client.Line) {
 			// the welcome has been applied and no later line has: the channel of line 0 does not exist yet,
 			// neither now nor after the following lines have been received
-			connSnaps[0] = chanCanon(st.GetChannel("#c"))
+			connSnaps[0] = chanCanon(st.GetChannel(chn))
 			dl := time.Now().Add(2 * time.Millisecond)
 			for atomic.LoadInt64(&recvCount) < 2 && time.Now().Before(dl) {
 				runtimeGosched()
@@ -274,7 +277,7 @@ func runC05(c *Ctx) {
 			for k := 0; k < 20; k++ {
 				runtimeGosched()
 			}
-			connSnaps[1] = chanCanon(st.GetChannel("#c"))
+			connSnaps[1] = chanCanon(st.GetChannel(chn))
 			atomic.StoreInt32(&connSeen, 1)
 		})
 		for _, v := range []string{"JOIN", "PART", "KICK", "QUIT", "NICK", "TOPIC", "MODE"} {
